@@ -38,6 +38,8 @@ def run(ctx):
     K.check_scheme_tests_ignore_case(ctx, f)
     from props import C09
     C09.check_text_impls_escape(ctx, f)
+    K.check_raw_text_writers(ctx, f)
+    K.check_base64_chunking(ctx, f)
 
     # ---- C11.a name tables --------------------------------------------------------------
     for mod in MODS:
